@@ -22,13 +22,16 @@ MODELLED_CBS = {"handle_offer", "_expired", "_send_start_subscribe", "_send_stop
 
 
 def addr_of(n: int):
-    return ("10.0.0.%d" % n, 30490)
+    """peer n as a socket address: peers 2h-1 and 2h live on the SAME host 10.0.0.h and differ in the port only (two SD
+    instances on one machine) - a peer is its (host, port) pair, never the host alone"""
+    return ("10.0.0.%d" % ((n + 1) // 2), 30490 + (n + 1) % 2)
 
 
 def idx_of(addr) -> str:
     if addr is None or addr == MC:
         return "~"
-    return addr[0].rsplit(".", 1)[1]
+    h = int(addr[0].rsplit(".", 1)[1])
+    return str(2 * h - 1 + (addr[1] - 30490))
 
 
 class TimingsSpec:
